@@ -641,11 +641,12 @@ def run_property(pid, tier, seed, only_part=None):
         for e in errors[:5]:
             print(e)
         return 2
+    # (cases that tripped the watchdog are kept for inspection whether or not there are enough of them to void the run)
+    for inc in [i for i in total["inconclusive"] if i][:3]:
+        path = os.path.join(outdir, "inconclusive_{}.json".format(case_hash(inc["case"])))
+        with open(path, "w") as fh:
+            json.dump(inc, fh, indent=1, default=repr)
     if total["evaluations"] and n_inconclusive > max(1, 0.01 * total["evaluations"]):
-        for inc in [i for i in total["inconclusive"] if i][:3]:
-            path = os.path.join(outdir, "inconclusive_{}.json".format(case_hash(inc["case"])))
-            with open(path, "w") as fh:
-                json.dump(inc, fh, indent=1, default=repr)
         print("INCONCLUSIVE property={}: {} cases tripped the watchdog".format(pid, n_inconclusive))
         return 2
     return 0
